@@ -489,7 +489,7 @@ def canon_impl(res: Dict[str, Any]) -> Dict[str, Any]:
 def model_line(ops, fixed=True, imm=None, nul=None) -> Dict[str, Any]:
     ti, tn = tables(ops)
     return {"layer": "sysev", "imm": ti if imm is None else imm, "nul": tn if nul is None else nul,
-            "fix12": fixed, "fix13": fixed, "fixResub": fixed, "fixRaise": fixed, "nchars": 8 if is_bridge(ops) else 4, "ops": ops}
+            "fix12": fixed, "fix13": fixed, "fixResub": fixed, "fixRaise": fixed, "fixHand": fixed, "nchars": 8 if is_bridge(ops) else 4, "ops": ops}
 
 
 def canon_multi(e):
